@@ -4,7 +4,7 @@ from bounded import cfg_checks as K, cfg_gen as G
 
 
 def cases(tier, seed):
-    for g, origin in G.grammars(tier, seed, exhaustive_prods=2):
+    for g, origin in G.grammars(tier, seed):
         yield {'G': S.to_json(g), 'origin': origin}
 
 
